@@ -15,8 +15,10 @@
 """
 from __future__ import annotations
 
+import hashlib
 import json
 import multiprocessing
+import os
 import random
 from concurrent.futures import ThreadPoolExecutor
 
@@ -24,35 +26,66 @@ from .. import common, tlc
 from ..drive import rrelsyntax as drv
 
 PID = "C12"
-THEOREMS = ["ParsePrintExact", "ParseSpacedExact", "RoundTrip", "NormIdempotent", "SourceAndNormAgree"]
+THEOREMS = ["ParsePrintExact", "ParseSpacedExact", "RoundTrip", "NormIdempotent"]
 DEV_BREAKS = {"ProxyFlagNotPrinted": "RoundTrip", "FixedNameSingleQuoted": "RoundTrip"}
 
 
 # ------------------------------------------------------------------ TLC-enumerated universe
+def _spec_digest():
+    h = hashlib.sha1()
+    for m in META["modules"]:
+        for ext in (".tla", ".cfg"):
+            f = os.path.join(tlc.SPEC, m + ext)
+            if os.path.exists(f):
+                h.update(open(f, "rb").read())
+    return h.hexdigest()[:16]
+
+
+def _cached(key, compute):
+    """TLC answers do not depend on the code under test; with VT_TLC_CACHE=<dir> they are kept between
+    runs (used for the sensitivity runs against mutated copies of textX).  Keyed by the spec text."""
+    d = os.environ.get("VT_TLC_CACHE")
+    if not d:
+        return compute()
+    os.makedirs(d, exist_ok=True)
+    f = os.path.join(d, f"{PID}-{_spec_digest()}-{common.digest(key)}.json")
+    if os.path.exists(f):
+        with open(f) as fh:
+            return json.load(fh)
+    out = compute()
+    with open(f + ".tmp", "w") as fh:
+        json.dump(out, fh)
+    os.replace(f + ".tmp", f)
+    return out
+
+
 def _universe(n, nshards, dev=""):
     def one(s):
         return tlc.model_check("MC_RrelSyntax", env=dict(VT_N=n, VT_SHARD=s, VT_NSHARDS=nshards, VT_DEV=dev),
                                workers=1, timeout=3000)
-    with ThreadPoolExecutor(max_workers=tlc.NCPU) as ex:
-        rs = list(ex.map(one, range(nshards)))
-    cases = []
-    for s, r in enumerate(rs):
-        tlc.require_ok(r, f"MC_RrelSyntax N={n} shard {s}/{nshards}")
-        cs = r.results("CASE")
-        if len(cs) != r.distinct:
-            raise tlc.MachineryError(f"MC_RrelSyntax shard {s}: {r.distinct} states but {len(cs)} printed cases")
-        cases.extend(cs)
-    cases.sort(key=lambda c: (len(c["text"]), c["text"]))
-    return cases, rs
+
+    def compute():
+        with ThreadPoolExecutor(max_workers=tlc.NCPU) as ex:
+            rs = list(ex.map(one, range(nshards)))
+        cases = []
+        for s, r in enumerate(rs):
+            tlc.require_ok(r, f"MC_RrelSyntax N={n} shard {s}/{nshards}")
+            cs = r.results("CASE")
+            if len(cs) != r.distinct:
+                raise tlc.MachineryError(f"MC_RrelSyntax shard {s}: {r.distinct} states but {len(cs)} printed cases")
+            cases.extend(cs)
+        cases.sort(key=lambda c: (len(c["text"]), c["text"]))
+        st = dict(distinct=sum(r.distinct for r in rs), generated=sum(r.generated for r in rs),
+                  depth=max(r.depth for r in rs), wall_s=max(r.wall_s for r in rs), cmd=rs[0].cmd, shards=len(rs))
+        return [cases, st]
+
+    return _cached(["universe", n, nshards, dev], compute)
 
 
 class _Agg:
-    def __init__(self, rs):
-        self.distinct = sum(r.distinct for r in rs)
-        self.generated = sum(r.generated for r in rs)
-        self.depth = max(r.depth for r in rs)
-        self.wall_s = max(r.wall_s for r in rs)
-        self.cmd = rs[0].cmd + f"   (x{len(rs)} shards, VT_SHARD=0..{len(rs) - 1})"
+    def __init__(self, st):
+        self.distinct, self.generated, self.depth, self.wall_s = st["distinct"], st["generated"], st["depth"], st["wall_s"]
+        self.cmd = st["cmd"] + f"   (x{st['shards']} shards, VT_SHARD=0..{st['shards'] - 1})"
         self.coverage = {}
 
 
@@ -177,9 +210,9 @@ def run(rep):
         "backslash would escape the closing quote whenever another quote follows)",
     ]
     findings = common.open_findings(PID)
-    n, shards = (3, 12) if quick else (4, 16)
-    cases, rs = _universe(n, shards)
-    rep.add_mc(f"MC_RrelSyntax[N={n}]", _Agg(rs), THEOREMS)
+    n, shards = (3, max(2, min(12, tlc.NCPU))) if quick else (4, 16)
+    cases, st = _universe(n, shards)
+    rep.add_mc(f"MC_RrelSyntax[N={n}]", _Agg(st), THEOREMS)
     rep.bounds["universe"] = dict(weight=n, trees=len(cases), flags=5)
     obs = _observe_all(cases, procs)
     reads = _spec_reads(rep, [o["printed"] for o in obs])
@@ -187,7 +220,7 @@ def run(rep):
     rep.exhaustive = True
     # random deeper trees
     trees = _random_trees(rng, 1500 if quick else 20000)
-    res, st = tlc.oracle("OracleRrelSyntax", trees)
+    res, st = _cached(["random", trees], lambda: list(tlc.oracle("OracleRrelSyntax", trees)))
     rep.add_oracle("OracleRrelSyntax[random trees]", st)
     rcases = []
     for t in trees:
